@@ -169,6 +169,7 @@ def run(ctx, repo):
     ctx.rule('R6', 'the documented speed limits (11 m/s up to 400 m, 10 m/s beyond, 0.5 m/s minimum for all) are raise-guards; the slow limit is independent of the distance class')
     ctx.rule('R7', "the value checked is the value printed: a float returned through '%.Nf' is rounded to N decimals before the guards, the "
                    'derived quantities (duration, speed) and the format read it; raw guards have a counterpart after the rounding')
+    ctx.rule('R9', 'get_distance (folded) gives every timed table key, also in its spaced spellings, its distance: the speed limits are reached')
     ctx.rule('R8', 'no text the timed arm can return (format string -> regular language, pushed through the trailing-zero stripping) lies in the '
                    'trigger language of an input fix-up that applies to the same event (a returned value validates to itself)')
     ctx.rule('R5', 'the timed arm refuses seconds >= 60 under minutes and minutes >= 60 under hours with errorKlass')
@@ -231,6 +232,39 @@ def run(ctx, repo):
                         '`%s` divides by `%s`, which no enclosing condition has found non-zero: a zero value raises ZeroDivisionError, which is '
                         'not the caller\'s error class' % (unparse(d_)[:60], unparse(r_)), "('100', '0.00')")
     ctx.count('divisions examined', n_div)
+    # character subscripts of the text: text[k] raises IndexError on a text that is too short (a blank one) unless an enclosing
+    # condition has found the text non-empty / long enough; slices never raise
+    tpar = params[1]
+    for sub in ast.walk(fn):
+        if isinstance(sub, ast.Subscript) and isinstance(sub.ctx, ast.Load) and not isinstance(sub.slice, ast.Slice) \
+                and isinstance(sub.value, ast.Name) and sub.value.id == tpar:
+            guarded_ = in_try_raising(sub, fn, ek)
+            c_, p_ = sub, getattr(sub, '_parent', None)
+            while p_ is not None and p_ is not fn and not guarded_:
+                if isinstance(p_, ast.If) and any(c_ is s_ or any(c_ is y for y in ast.walk(s_)) for s_ in p_.body):
+                    conj = p_.test.values if isinstance(p_.test, ast.BoolOp) and isinstance(p_.test.op, ast.And) else [p_.test]
+                    for t_ in conj:
+                        if isinstance(t_, ast.Name) and t_.id == tpar:
+                            guarded_ = True
+                        if any(isinstance(x, ast.Call) and call_name(x) in ('len', 'startswith', 'endswith', 'match') and tpar in ast.unparse(x)
+                               for x in ast.walk(t_)):
+                            guarded_ = True
+                if isinstance(p_, ast.BoolOp) and isinstance(p_.op, ast.And) and isinstance(p_.values[0], ast.Name) and p_.values[0].id == tpar \
+                        and not (c_ is p_.values[0]):
+                    guarded_ = True
+                c_, p_ = p_, getattr(p_, '_parent', None)
+            # after the PAT_PERF filter the text is known to be non-empty
+            filt = [n for n in ast.walk(fn) if isinstance(n, ast.If) and 'PAT_PERF' in ast.unparse(n.test) and any(isinstance(x, ast.Raise) for x in ast.walk(n))]
+            if filt and sub.lineno > filt[0].lineno and not any(
+                    isinstance(a, ast.Assign) and any(isinstance(t, ast.Name) and t.id == tpar for t in a.targets) and filt[0].lineno < a.lineno < sub.lineno
+                    and not (isinstance(a.value, ast.Call) and call_name(a.value) == 'replace') for a in ast.walk(fn)):
+                guarded_ = True
+            if guarded_:
+                ctx.ok('R1', 'subscript %s: the text is known to be long enough' % unparse(sub))
+            else:
+                ctx.finding('R1', '%s::%s::character subscript of a possibly empty text' % (UTILS, FN), UTILS, sub.lineno,
+                            '`%s` indexes the text before anything has shown it to be non-empty: a blank text raises IndexError, which is not the '
+                            'caller\'s error class' % unparse(sub), "('100', '   ')")
     n_raise = 0
     for r in ast.walk(fn):
         if isinstance(r, ast.Raise):
@@ -444,4 +478,51 @@ def run(ctx, repo):
         ctx.finding('R8', '%s::%s::%s' % (UTILS, FN, key), UTILS, fn.lineno, msg, w)
     if not probs8:
         ctx.ok('R8', '%d output formats x %d fix-ups: no returned text lies in the trigger language of a fix-up of the same event' % (n_out, n_fix))
+
+    # ---- R9 the speed check is reached: get_distance (folded on constants) gives every timed table key of the library a distance, and the
+    # same distance when the key is written with the blanks the patterns admit between its groups ('110H 106.7cm 9.14m', '3000 W')
+    import re as _re
+    from .. import fold as _fold
+    uenv, ufolder = repo.folded(UTILS)
+    gd_fc = uenv.get('get_distance')
+    if not isinstance(gd_fc, _fold.FuncConst):
+        raise AnalysisError('get_distance is not foldable')
+    pr = repo.const('athlib/codes.py', 'PAT_RUN')
+    rxr = _re.compile(pr.pattern)
+    keys = set()
+    for rel_, name_ in (('athlib/tyrving_score.py', '_tyrvingTables'), ('athlib/qkids_score.py', '_qkidsTables')):
+        for tab in repo.const(rel_, name_).values():
+            keys |= {k for k in tab if isinstance(k, str)}
+    for rel_ in ('athlib/wma/wma-data-2015.json', 'athlib/wma/wma-data-2023.json'):
+        d_ = repo.json(rel_)
+        keys |= {r[0] for g in ('m', 'f') for r in d_.get(g) or [] if isinstance(r[0], str)}
+    timed = sorted(k for k in keys if rxr.match(k) and k[:1].isdigit() and 'x' not in k.lower())
+
+    def gd(code):
+        try:
+            return _fold.Folder(importer=ufolder.importer).call(gd_fc, [code], {})
+        except Exception as e:
+            return '<%s>' % type(e).__name__
+    n9 = 0
+    bad9 = []
+    for k in timed:
+        spaced = _re.sub(r'(?<=[A-Za-z])(?=[0-9])', ' ', k)
+        spaced2 = _re.sub(r'^([0-9.]+)(?=[A-Za-z])', r'\1 ', k)
+        base = gd(k)
+        for v in {k, spaced, spaced2}:
+            if not rxr.match(v):
+                continue
+            n9 += 1
+            got = gd(v)
+            if not isinstance(got, (int, float)) or got != base or not isinstance(base, (int, float)):
+                bad9.append((v, got, base))
+    ctx.count('timed table keys (and spaced spellings) given to the folded get_distance', n9)
+    ctx.floor('timed keys measured', n9, 100)
+    if bad9:
+        v, got, base = bad9[0]
+        ctx.finding('R9', '%s::get_distance::timed codes without a distance' % UTILS, UTILS, mod.func('get_distance').lineno,
+                    'get_distance(%r) gives %r (the unspaced key gives %r): for %d accepted spellings of timed table keys there is no distance, so '
+                    'check_performance_for_discipline skips the speed limits for them' % (v, got, base, len(bad9)), v)
+    else:
+        ctx.ok('R9', 'get_distance gives all %d timed keys / spaced spellings their distance' % n9)
 
